@@ -3,6 +3,7 @@
       model (grdriver heap), property predicate on the implementation's heap dump;
   (b) end to end: synthesised fonts with random rule sets (tools/fontsynth.py) and the shipped fonts through the public
       API (h_seg), property predicate on the public-API dump (no model at this level)."""
+import json
 import os
 import shutil
 import lib
@@ -100,6 +101,17 @@ def end_to_end(ctx, res, pred, nfonts, ntexts, shipped_words):
                 nch = -1 if r.random() < 0.8 else len(t) + r.randrange(1, 9)
                 lines.append("F0=%d,0,f;S0=0,-1,-1,0,32,%d,%d,%s;D0" % (i, r.choice([0, 1, 0, 3, 2]), nch, "".join("%08x" % c for c in t) or "-"))
                 info.append((t, meta))
+        # past failures first-class: fonts (with their texts) on which an earlier tree crashed or broke a predicate, kept under /verif/corpus/e2e
+        for cf in sorted((lib.ROOT / "corpus" / "e2e").glob("*.json")):
+            c = json.loads(cf.read_text())
+            p = tmp / ("c%d.ttf" % len(fonts))
+            p.write_bytes(bytes.fromhex(c["font_hex"]))
+            fonts.append(str(p))
+            meta = {"nglyphs": c.get("nglyphs", fontsynth.NG), "pos_assoc": bool(c.get("pos_assoc")), "synth": True}
+            for t in c["texts"]:
+                for d in c.get("dirs", [0, 1]):
+                    lines.append("F0=%d,0,f;S0=0,-1,-1,0,32,%d,-1,%s;D0" % (len(fonts) - 1, d, "".join("%08x" % x for x in t) or "-"))
+                    info.append((t, meta))
         nsynth = len(fonts)
         ship = [f for f in SHIPPED if (lib.REPO / "tests" / "fonts" / f).exists()]
         for j, f in enumerate(ship):
@@ -128,7 +140,8 @@ def end_to_end(ctx, res, pred, nfonts, ntexts, shipped_words):
             res.distinct.add(l)
             if i.startswith("CRASH") or i.startswith("fault"):
                 res.failures.append({"harness": "h_seg", "mode": "e2e", "line": l, "impl": i[:300], "model": None, "why": "crash / sanitizer fault in gr_make_seg", "tag": "fault",
-                                     "fonts": "regenerate with VERIF_SEED=%d" % ctx.seed})
+                                     "font_hex": open(fonts[int(l.split("=")[1].split(",")[0])], "rb").read().hex() if meta["synth"] else None,
+                                     "font": None if meta["synth"] else fonts[int(l.split("=")[1].split(",")[0])]})
                 res.count("e2e:fault")
                 continue
             d = segspec.parse_dump(i)
